@@ -207,6 +207,8 @@ def tlc_scenario_to_harness(js, sid, driver):
                 sc["steps"].append({"oobunkeep": e["res"]})
             elif e["kind"] == "oobdel":
                 sc["steps"].append({"oobdel": e["res"]})
+            elif e["kind"] == "oobdisown":
+                sc["steps"].append({"oobdisown": e["res"]})
             else:
                 sc["steps"].append({"oobkeep": e["res"]})
     if any(t["k"] in ("c", "e") for t in sched):
